@@ -189,26 +189,25 @@ func UnmarshalAttribute(attr *api.Attribute) (bgp.PathAttributeInterface, error)
 					}
 				case *api.TunnelEncapTLV_TLV_SrSegmentList:
 					var err error
-					weight := uint32(0)
-					flags := uint8(0)
-					if sv.SrSegmentList.Weight != nil {
-						weight = sv.SrSegmentList.Weight.Weight
-						flags = uint8(sv.SrSegmentList.Weight.Flags)
-					}
 					s := &bgp.TunnelEncapSubTLVSRSegmentList{
 						TunnelEncapSubTLV: bgp.TunnelEncapSubTLV{
 							Type:   bgp.ENCAP_SUBTLV_TYPE_SRSEGMENT_LIST,
-							Length: uint16(6), // Weight (6 bytes) + length of segment (added later, after all segments are discovered)
+							Length: uint16(1), // reserved octet; the weight and the segments are added below
 						},
-						Weight: &bgp.SegmentListWeight{
+						Segments: make([]bgp.TunnelEncapSubTLVInterface, 0),
+					}
+					// The Weight sub-TLV is optional: an absent API weight must not
+					// fabricate one.
+					if sv.SrSegmentList.Weight != nil {
+						s.Weight = &bgp.SegmentListWeight{
 							TunnelEncapSubTLV: bgp.TunnelEncapSubTLV{
 								Type:   bgp.SegmentListSubTLVWeight,
 								Length: uint16(6),
 							},
-							Flags:  flags,
-							Weight: weight,
-						},
-						Segments: make([]bgp.TunnelEncapSubTLVInterface, 0),
+							Flags:  uint8(sv.SrSegmentList.Weight.Flags),
+							Weight: sv.SrSegmentList.Weight.Weight,
+						}
+						s.Length += uint16(s.Weight.Len())
 					}
 					if len(sv.SrSegmentList.Segments) != 0 {
 						s.Segments, err = UnmarshalSRSegments(sv.SrSegmentList.Segments)
@@ -218,7 +217,7 @@ func UnmarshalAttribute(attr *api.Attribute) (bgp.PathAttributeInterface, error)
 					}
 					// Get total length of Segment List Sub TLV
 					for _, seg := range s.Segments {
-						s.Length += uint16(seg.Len() + 2) // Adding 1 byte of type and 1 byte of length for each Segment object
+						s.Length += uint16(seg.Len()) // Len() includes the type and length octets of the segment
 					}
 					subTlv = s
 				case *api.TunnelEncapTLV_TLV_Unknown:
@@ -2804,15 +2803,14 @@ func NewTunnelEncapAttributeFromNative(a *bgp.PathAttributeTunnelEncap) (*api.Tu
 				if err != nil {
 					return nil, err
 				}
-				subTlv.Tlv = &api.TunnelEncapTLV_TLV_SrSegmentList{
-					SrSegmentList: &api.TunnelEncapSubTLVSRSegmentList{
-						Weight: &api.SRWeight{
-							Flags:  uint32(sv.Weight.Flags),
-							Weight: sv.Weight.Weight,
-						},
-						Segments: s,
-					},
+				segmentList := &api.TunnelEncapSubTLVSRSegmentList{Segments: s}
+				if sv.Weight != nil {
+					segmentList.Weight = &api.SRWeight{
+						Flags:  uint32(sv.Weight.Flags),
+						Weight: sv.Weight.Weight,
+					}
 				}
+				subTlv.Tlv = &api.TunnelEncapTLV_TLV_SrSegmentList{SrSegmentList: segmentList}
 			}
 			subTlvs = append(subTlvs, &subTlv)
 		}
